@@ -275,6 +275,8 @@ def check_case(spec):
         return max(0.0, hi - lo)
 
     worst_a = 0.0
+    typical_edge = float(np.median(em.edge_lengths))
+    typical_area = float(np.median(mesh.areas))
     asserted = np.where(site_ok)[0]
     cells = {}
     for i in asserted:
@@ -282,7 +284,7 @@ def check_case(spec):
         cells[i] = c
         want = c.area / xi**2
         got = mesh.areas[i]
-        err = abs(got - want) / max(want, 1e-300)
+        err = abs(got - want) / max(want, 0.1 * typical_area)
         worst_a = max(worst_a, err)
         if err > dual_tol:
             where = "boundary" if on_site[i] else "interior"
@@ -297,7 +299,10 @@ def check_case(spec):
             want = face_length(i, j)
             want /= xi
             got = em.dual_edge_lengths[idx]
-            err = abs(got - want) / max(em.edge_lengths[idx], 1e-300)
+            # relative to the edge's own length, but not below the typical (median) edge: between two almost coinciding sites the
+            # circumcentres of the thin triangles are ill-conditioned (absolute rounding ~1e-11 on an edge of 1e-3, seen on a union
+            # outline), while any wrong rule is off by a per-cent fraction of the local mesh scale
+            err = abs(got - want) / max(em.edge_lengths[idx], typical_edge)
             worst_s = max(worst_s, err)
             if err > dual_tol:
                 res.fail("C07.dual_length", f"edge {idx} ({i},{j}) {'boundary' if on_edge[idx] else 'interior'}: dual length {got:.12g}, clipped Voronoi face has length {want:.12g}")
